@@ -261,7 +261,9 @@ def build_case(case):
                 'ref_builder': b._ref_script_size(), 'ref_ledger': ref_ledger, 'omitted': omitted,
                 'fake_wit': b._witness_count(), 'real_wit': nwit, 'required': len(required),
                 'fee': body.fee, 'size': len(tx.to_cbor()), 'n_inputs': len(body.inputs),
-                'n_outputs': len(body.outputs)}
+                'n_outputs': len(body.outputs),
+                'final_coins': [o.amount.coin if isinstance(o.amount, Value) else o.amount for o in body.outputs],
+                'mem': sum(x.ex_units.mem for x in b._redeemer_list), 'steps': sum(x.ex_units.steps for x in b._redeemer_list)}
     finally:
         TransactionBuilder._estimate_fee, TransactionBuilder._build_full_fake_tx = orig_est, orig_fake
 
